@@ -105,12 +105,18 @@ func makeSubject(cfg Cfg, count bool) Subject {
 			return makeKV(cfg, d, count)
 		}
 	case "float":
-		d := floatDom(n, cfg.Cmp, int(cfg.MapSeed>>24%uint64(len(specialFloats))))
+		off := int(cfg.MapSeed >> 24 % uint64(len(specialFloats)))
 		switch fam {
 		case "set":
-			return newSetSubj(cfg, d, count)
+			return newSetSubj(cfg, floatDom(n, cfg.Cmp, off, false), count)
 		case "kv":
-			return makeKV(cfg, d, count)
+			return makeKV(cfg, floatDom(n, cfg.Cmp, off, false), count)
+		case "list":
+			return newListSubj(cfg, floatDom(n, cfg.Cmp, off, true))
+		case "sq":
+			return newSQSubj(cfg, floatDom(n, cfg.Cmp, off, true))
+		case "heap":
+			return newHeapSubj(cfg, floatDom(n, cfg.Cmp, off, true))
 		}
 	case "item":
 		d := itemDom(n, cfg.Cmp)
@@ -136,6 +142,10 @@ func floatOK(prop, kind string) bool {
 	switch kind {
 	case "treemap", "redblacktree", "avltree", "btree", "treebidimap", "treeset":
 		return true
+	case "binaryheap", "priorityqueue", "arraylist", "singlylinkedlist", "doublylinkedlist",
+		"arraystack", "linkedliststack", "arrayqueue", "linkedlistqueue", "circularbuffer":
+		// floats without NaN (these families' models compare with ==); not in the persistence worlds (Inf)
+		return prop != "C11" && prop != "C12"
 	case "hashset", "linkedhashset", "hashmap", "linkedhashmap":
 		// (not HashBidiMap: with a NaN key its two Go maps drift apart, which is Go map semantics on a
 		// key that is not equal to itself, outside any documented use)
@@ -147,12 +157,15 @@ func floatOK(prop, kind string) bool {
 // useFloat switches a drawn configuration to float elements.
 func useFloat(r *Rng, cfg *Cfg) {
 	cfg.Elem = "float"
-	cfg.Cmp = r.PickS("nat", "nat", "rev")
+	cfg.Cmp = r.PickS("nat", "nat", "rev", "total")
 	cfg.Ctor = ""
 	if cfg.Kind == "treebidimap" {
 		cfg.VCmp = r.PickS("nat", "rev")
 	}
-	if cfg.Cmp == "nat" && (cfg.VCmp == "" || cfg.VCmp == "nat") && r.Bool() {
+	if !usesCmp(cfg.Kind) {
+		cfg.Cmp = "nat"
+	}
+	if usesCmp(cfg.Kind) && familyOf(cfg.Kind) != "list" && cfg.Cmp == "nat" && (cfg.VCmp == "" || cfg.VCmp == "nat") && r.Bool() {
 		cfg.Ctor = "default"
 	}
 }
@@ -168,15 +181,15 @@ func genCfg(r *Rng, kinds []string, tier string) Cfg {
 	}
 	if usesCmp(cfg.Kind) {
 		cs := cmpsFor(cfg.Elem)
-		cfg.Cmp = cs[[]int{0, 0, 0, 0, 0, 1, 1, 2, 2, 3, 3, 4, 4, 5, 5}[r.Intn(15)]%len(cs)]
+		cfg.Cmp = cs[[]int{0, 0, 0, 0, 0, 1, 1, 2, 2, 3, 3, 4, 4, 5, 5, 6}[r.Intn(16)]%len(cs)]
 	} else {
 		cfg.Cmp = "nat"
 	}
 	if cfg.Kind == "treebidimap" {
-		cfg.VCmp = strCmps[r.Weighted(5, 2, 2, 2, 2, 2)]
+		cfg.VCmp = strCmps[r.Weighted(5, 2, 2, 2, 2, 2, 1)]
 	}
 	if cfg.Kind == "btree" {
-		cfg.Order = []int{3, 3, 3, 4, 4, 5, 5, 6, 7, 8, 9, 10, 11, 12, 16, 17, 32}[r.Intn(17)]
+		cfg.Order = []int{3, 3, 3, 4, 4, 5, 5, 6, 7, 8, 9, 10, 11, 12, 16, 17, 32, 48, 64, 100, 256}[r.Intn(21)]
 	}
 	if cfg.Kind == "circularbuffer" {
 		cfg.Cap = []int{1, 1, 2, 2, 3, 3, 4, 5, 6, 9}[r.Intn(10)]
